@@ -31,7 +31,25 @@ a case is non-trivial if the parser accepted at least part of the input (a frame
 distinct = distinct (case, output) hashes";
 
 /// wall-clock limit per case (generous: the machine is shared)
-const WATCHDOG: Duration = Duration::from_secs(120);
+const WATCHDOG: Duration = Duration::from_secs(60);
+/// after this many watchdog timeouts of one entry its remaining cases are skipped (a mutation
+/// that makes a parser spin would otherwise cost 60 s per case)
+const MAX_TIMEOUTS_PER_ENTRY: usize = 4;
+
+static TIMEOUTS: std::sync::Mutex<Vec<(String, usize)>> = std::sync::Mutex::new(Vec::new());
+
+fn timeouts_of(entry: &str) -> usize {
+    TIMEOUTS.lock().unwrap().iter().find(|(e, _)| e == entry).map(|(_, n)| *n).unwrap_or(0)
+}
+
+fn note_timeout(entry: &str) {
+    let mut t = TIMEOUTS.lock().unwrap();
+    if let Some(x) = t.iter_mut().find(|(e, _)| e == entry) {
+        x.1 += 1;
+    } else {
+        t.push((entry.to_owned(), 1));
+    }
+}
 
 pub struct Out {
     pub output: String,
@@ -184,7 +202,7 @@ pub fn block_on_reused<F: std::future::Future>(f: F) -> F::Output {
 
 /// entries whose output line is predicted by a Lean model; for all others the output column is
 /// the constant `unmodelled` whatever happened, and panics/hangs are reported by the oracle only
-const MODELLED: &[&str] = &["chunk", "len", "cl", "ws", "range", "rpath", "frange", "infom"];
+const MODELLED: &[&str] = &["chunk", "len", "cl", "ws", "range", "rpath", "frange", "infom", "cdm"];
 
 fn run(line: &str) -> CaseResult {
     let mut r = run_inner(line);
@@ -197,6 +215,9 @@ fn run(line: &str) -> CaseResult {
 
 fn run_inner(line: &str) -> CaseResult {
     let entry = line.split_ascii_whitespace().next().unwrap_or("").to_owned();
+    if timeouts_of(&entry) >= MAX_TIMEOUTS_PER_ENTRY {
+        return CaseResult { output: "SKIPPED".into(), fail: None, nontrivial: false, tags: vec!["skipped-after-timeouts".into()] };
+    }
     let helper = HELPER.with(|h| h.borrow_mut().take()).or_else(spawn_helper);
     let Some(helper) = helper else {
         return CaseResult { output: "spawn-failed".into(), fail: None, nontrivial: false, tags: vec!["spawn-failed".into()] };
@@ -207,6 +228,8 @@ fn run_inner(line: &str) -> CaseResult {
     let got = helper.rx.recv_timeout(WATCHDOG);
     if got.is_ok() {
         HELPER.with(|h| *h.borrow_mut() = Some(helper));
+    } else {
+        note_timeout(&entry);
     } // else: the helper is abandoned (its thread may spin for ever) and a new one is made
     match got {
         Ok(Ok(out)) => {
